@@ -50,7 +50,7 @@ func newGettyRemoting() *GettyRemoting {
 
 func (g *GettyRemoting) SendSync(msg message.RpcMessage, s getty.Session, callback callbackMethod) (interface{}, error) {
 	if s == nil {
-		s = sessionManager.selectSession(msg)
+		s = sessionManager.selectSession(msg.Body)
 	}
 	rpc.BeginCount(s.RemoteAddr())
 	result, err := g.sendAsync(s, msg, callback)
@@ -64,7 +64,7 @@ func (g *GettyRemoting) SendSync(msg message.RpcMessage, s getty.Session, callba
 
 func (g *GettyRemoting) SendAsync(msg message.RpcMessage, s getty.Session, callback callbackMethod) error {
 	if s == nil {
-		s = sessionManager.selectSession(msg)
+		s = sessionManager.selectSession(msg.Body)
 	}
 	rpc.BeginCount(s.RemoteAddr())
 	_, err := g.sendAsync(s, msg, callback)
